@@ -4,6 +4,7 @@ pub fn run(id: &str) -> String {
     match id {
         "F1" => f1(),
         "F2" => f2(),
+        "F3" => crate::finding_f3::f3(),
         _ => format!("{{\"error\":\"unknown finding {id}\"}}"),
     }
 }
